@@ -5,6 +5,7 @@
    by the connection machine, see Props/C03.v / Props/C10.v. *)
 From Coq Require Import List NArith ZArith Lia Bool.
 From MM Require Import Lib.Bytes Model.Parse Model.Conn Proofs.ParseProofs Gen.FactsPackets Gen.FactsConn Gen.FactsStream.
+From MM Require Import Gen.FactsOutline.
 Import ListNotations.
 Open Scope N_scope.
 
@@ -14,8 +15,16 @@ Theorem c07_source_shape :
   types_read_str_len_ok = true /\ packets_read_connect_attrs_ok = true /\ prepared_find_params_ok = true /\
   packets_interpolate_by_position = true /\ connection_connection_command_phase_ok = true /\ translated_stream = true /\
   packets_parse_handle_stmt_fetch_ok = true /\ packets_parse_com_stmt_reset_ok = true /\ packets_parse_com_stmt_close_ok = true /\
-  packets_read_cursor_flags_ok = true /\ packets_read_param_type_ok = true.
+  packets_read_cursor_flags_ok = true /\ packets_read_param_type_ok = true /\
+  (* what ends a connection after a packet it cannot go on from: the session is closed, the registration released *)
+  connection_connection_start_ok = true /\ connection_connection_inner_start_ok = true /\ server_mysqlserver_client_connected_cb_ok = true.
 Proof. repeat split; reflexivity. Qed.
+
+(* the modules this property rests on define the functions, classes, methods and class-level names they defined when the
+   model was transcribed - nothing added (an override, a new helper in the path), removed or renamed *)
+Theorem c07_module_outlines : translated_outline = true /\ outline_packets_ok = true /\ outline_stream_ok = true /\ outline_connection_ok = true.
+Proof. repeat split; reflexivity. Qed.
+
 
 (* a packet whose sequence id is wrong is rejected before its payload is consumed: the only in-step answer is to end
    the connection, and that is what the command loop does with every exception raised by the read itself *)
